@@ -67,7 +67,8 @@ Rules == {"std", "lrleaf", "nomem", "cfaonly"}
 \* lrleaf : .cfa: sp 0 + .ra: lr                                     (leaf: return address still in lr)
 \* nomem  : .cfa: sp P + .ra: <A1>                                   (never reads memory)
 \* cfaonly: .cfa: sp 2P + .ra: .cfa -P + ^                           (defines nothing else: callee-saved registers pass through)
-Vals == IF Arch = "arm64" THEN {0, A1, A3, A4, AX, Base, Base + 16, SIG + A1} ELSE {0, A1, A3, A4, AX, Base, Base + 8, Base + 16}
+\* arm: A1 + 1 is a Thumb return address (odd): the call adjustment is plain pc - 2 all the same
+Vals == IF Arch = "arm64" THEN {0, A1, A3, A4, AX, Base, Base + 16, SIG + A1} ELSE {0, A1, A1 + 1, A3, A4, AX, Base, Base + 8, Base + 16}
 VARIABLES mem, rule, frames, done, expect
 vars == <<mem, rule, frames, done, expect>>
 Readable(a) == a >= Base /\ a < SIG /\ a + Ptr <= StackEnd /\ (a - Base) % Ptr = 0
